@@ -247,6 +247,14 @@ def check_property(prop, reg, args, seed):
                 errs = fail_by_fn.get(fn_short, [])
                 if not errs:
                     errs = [{'kind': 'unknown', 'message': 'function failed without mapped diagnostic', 'primary': [], 'secondary': [], 'rendered': ''}]
+                # a property may own only some kinds of obligation of a function (C14: panic freedom,
+                # not the functional postconditions, which belong to C02/C05/...)
+                only = cfg.get('only_kinds')
+                if only:
+                    errs = [e for e in errs if e['kind'] in only or e['kind'] == 'unknown']
+                    if not errs:
+                        ob['status'] = 'discharged'
+                        ob['note'] = 'obligations of kinds %s discharged; failing obligations of other kinds belong to other properties' % ','.join(only)
                 for e in errs:
                     stmt = None
                     for p in e['primary'] + e['secondary']:
@@ -255,11 +263,17 @@ def check_property(prop, reg, args, seed):
                             break
                     at = norm(stmt['text']) if stmt else ''
                     oid = '%s/%s#%s' % (u, key, e['kind'])
+                    clause = next((norm(p['text']) for p in e['primary'] + e['secondary'] if p['origin'].get('kind') == 'annotation'), None)
+                    if e['kind'] == 'postcondition' and clause:
+                        # a postcondition is identified by the clause that fails, not by the `{` of the body
+                        at = clause
                     rec = {'obligation': oid, 'at': at, 'message': e['message'],
                            'repo_loc': ('%s:%s' % (stmt['origin']['file'], stmt['origin']['line'])) if stmt else None,
-                           'clause': next((norm(p['text']) for p in e['primary'] + e['secondary'] if p['origin'].get('kind') == 'annotation'), None),
+                           'clause': clause,
                            'rendered': e.get('rendered', ''), 'unit': u, 'function': key}
-                    kf = next((k for k in known if k['obligation'] == oid and (k['at'] == at or k['at'] == '*')), None)
+                    if item and any(l['fn'] == fn_short for l in item.get('lost_annotations', [])):
+                        rec['needs_witness'] = 'annotation anchor lost in %s: %s' % (fn_short, '; '.join(l['what'] for l in item['lost_annotations'] if l['fn'] == fn_short))
+                    kf = next((k for k in known if k['obligation'] == oid and (k['at'] == '*' or k['at'] == at or (k['at'].endswith('...') and at.startswith(k['at'][:-3])))), None)
                     if kf:
                         known_hits.append((kf, rec))
                     else:
@@ -317,10 +331,23 @@ def check_property(prop, reg, args, seed):
         rc = 1
         rdir = os.path.join(ROOT, 'replays', prop)
         os.makedirs(rdir, exist_ok=True)
+        kept = []
         for v in violations:
             witness = v.get('witness')
             if witness is None and not v.get('native'):
                 witness = native.find_witness(prop, cfg, v, repo)
+                v['witness'] = witness
+            if v.get('needs_witness') and not witness:
+                # the proof lost one of its annotations and no concrete failing input was found:
+                # undecided, never an alarm
+                tool_limits.append('%s: %s (obligation %s fails without it; no concrete witness)' % (v.get('unit'), v['needs_witness'], v['obligation']))
+                continue
+            kept.append(v)
+        violations = kept
+        if not violations:
+            rc = 2
+        for v in violations:
+            witness = v.get('witness')
             name = re.sub(r'[^A-Za-z0-9_.#-]+', '_', v['obligation'])[:100] + '-' + hashlib.sha256((v.get('at') or '').encode()).hexdigest()[:8] + '.json'
             rp = os.path.join(rdir, name)
             with open(rp, 'w') as f:
